@@ -29,6 +29,10 @@
  *   serve                                one get_user_command(); if it returned a line and an input_to / get_char is
  *                                        pending: the real call_function_interactive() (single-char mode ends, telnet
  *                                        option messages, reframe_single_char_input), as process_user_command() does
+ *   wpipe <hex>                          console: these bytes arrive on the stdin pipe: the real console worker procedure
+ *                                        (lib/async/console_worker.c, harness/c13/c13w.c) reads them, one read() per blob,
+ *                                        enqueues into the real line queue; after each blob the real process_io() console
+ *                                        branch dequeues and calls add_console_line()
  *   cb <k> err|dest                      the k-th callback into the user object (0-based, counted over the
  *                                        connection) raises an LPC error / destructs the user object
  *
@@ -91,7 +95,13 @@ static void out_hex (const char *tag, const unsigned char *p, size_t n)
       free (b);
       return;
     }
-  if (n)
+  if (n > 3000)
+    {
+      /* not through vh_out(): its line buffer is shorter than a long blob in hex */
+      fprintf (stderr, "VL %s %s\n", tag, b);
+      fflush (stderr);
+    }
+  else if (n)
     vh_out ("%s %s", tag, b);
   else
     vh_out ("%s -", tag);
@@ -474,6 +484,35 @@ static void do_send (const char *h)
 }
 
 
+/* console input through the real worker procedure and the real console branch of process_io() */
+extern int c13w_run_once (async_queue_t *q, const unsigned char *data, size_t len, size_t *pos);
+
+static void do_wpipe (const char *h)
+{
+  unsigned char *b;
+  size_t n = (h[0] == '-') ? (b = (unsigned char *) malloc (1), 0) : unhex (h, &b);
+  /* exact-size copy of the scripted stdin content */
+  unsigned char *data = (unsigned char *) malloc (n ? n : 1);
+  memcpy (data, b, n);
+  free (b);
+  if (!g_console_queue)
+    g_console_queue = async_queue_create (256, CONSOLE_MAX_LINE, ASYNC_QUEUE_DROP_OLDEST);	/* as init_console_user() does */
+  size_t pos = 0;
+  int guard = 0;
+  while (pos < n && alive () && ++guard < 64)
+    {
+      if (!c13w_run_once (g_console_queue, data, n, &pos))
+        break;
+      memset (&g_io_events[0], 0, sizeof g_io_events[0]);
+      g_io_events[0].completion_key = CONSOLE_COMPLETION_KEY;
+      g_num_io_events = 1;
+      process_io ();
+      g_num_io_events = 0;
+      after_step ();
+    }
+  free (data);
+}
+
 /* ---- transition probe -------------------------------------------------------
  * `ccprobe <ts> <cr> <single> <sbpos> <fill> <prefix-hex>`: for EVERY byte value 0..255 put the decoder into the
  * given configuration (ip->state = ts | cr-bit, SINGLE_CHAR, sb_pos, sb_buf = prefix padded with `fill` up to sb_pos,
@@ -674,7 +713,7 @@ static int c13_cmd (char *line)
       return 1;
     }
   if (!alive ())		/* connection closed earlier: nothing is executed any more */
-    return !strncmp (line, "getchar", 7) || !strncmp (line, "inputto", 7) || !strcmp (line, "serve") || !strcmp (line, "iflag single") || !strcmp (line, "iflag line") || !strcmp (line, "read") || !strncmp (line, "chunk ", 6)
+    return !strncmp (line, "wpipe ", 6) || !strncmp (line, "getchar", 7) || !strncmp (line, "inputto", 7) || !strcmp (line, "serve") || !strcmp (line, "iflag single") || !strcmp (line, "iflag line") || !strcmp (line, "read") || !strncmp (line, "chunk ", 6)
       || !strcmp (line, "extract") || !strcmp (line, "drain") || !strcmp (line, "finish") || !strncmp (line, "line ", 5);
   if (!strcmp (line, "xprobe"))
     {
@@ -701,6 +740,13 @@ static int c13_cmd (char *line)
   if (!strcmp (line, "serve"))
     {
       do_serve ();
+      return 1;
+    }
+  if (!strncmp (line, "wpipe ", 6))
+    {
+      if (port_kind != CONSOLE_USER)
+        return 0;
+      do_wpipe (line + 6);
       return 1;
     }
   if (!strcmp (line, "iflag single"))
